@@ -169,6 +169,8 @@ package age
 //@   ensures#label err == nil ==> len(labels) == 1 && labels[0] == hexenc(csprng($draws - 1, 16)) && $draws - 1 > old($draws)      [C06 C10 C11]
 //@   ensures#draws $draws >= old($draws)
 //@   ensures#stanzas err == nil ==> (forall j in 0..len(stanzas) :: stanzas[j] != nil)
+//@   ensures#wraperr lasterr("Wrap",1) != nil ==> err != nil && stanzas == nil                                                      [C10 C11 C13]
+//@   ensures#one err == nil ==> len(stanzas) == 1                                                                                   [C10 C11]
 //@   fresh stanzas when len(stanzas) > 0
 //@   fresh labels when len(labels) > 0
 //@   modifies $draws, $scryptcalls
